@@ -146,11 +146,11 @@ func cmdCheck(args []string) {
 	nObl, nDis, nCover := 0, 0, 0
 	var samples []map[string]string
 	var engineErrs []string
-	for _, u := range units {
-		res := e.VerifyUnit(u)
+	e.VerifyAll(units, func(res *UnitResult) {
+		u := res.Unit
 		if res.Err != "" {
 			engineErrs = append(engineErrs, u.Name+": "+res.Err)
-			continue
+			return
 		}
 		for _, t := range res.Trusted {
 			assumptions[t] = true
@@ -185,7 +185,7 @@ func cmdCheck(args []string) {
 			}
 			failures = append(failures, failure{o: r.O, r: r.R})
 		}
-	}
+	})
 	// static obligations (sweeps implemented in Go over the SSA)
 	for _, s := range cfg.Statics {
 		srs, errs := e.runStatic(s, cfg.ID)
